@@ -496,8 +496,11 @@ impl<'a> Searcher<'a> {
                     });
                 }
 
-                results.iter().for_each(|items| {
+                results.iter().enumerate().for_each(|(idx, items)| {
                     let mut buf = WritableBuffer::new();
+                    if idx > 0 {
+                        let _ = self.results_writer.write_row_separator(&mut buf);
+                    }
                     let _ = self.results_writer.write_row(&mut buf, items.to_owned());
                     let _ = write!(std::io::stdout(), "{}", String::from(buf));
                 });
